@@ -13,7 +13,7 @@ import (
 )
 
 func selfTest(verifDir string, r *Report) {
-	r.Rule("SELFTEST", "the matchers used by rules whose expected number of matches is zero fire on the positive examples of checker/testdata/fixture", 9)
+	r.Rule("SELFTEST", "the matchers used by rules whose expected number of matches is zero fire on the positive examples of checker/testdata/fixture", 10)
 	dir := filepath.Join(verifDir, "checker", "testdata", "fixture")
 	if _, err := os.Stat(dir); err != nil { // developer runs with a scratch -verif: fall back to the binary's own tree
 		if exe, err := os.Executable(); err == nil {
@@ -124,5 +124,6 @@ func selfTest(verifDir string, r *Report) {
 		}
 	}
 	check("origin/hostname-compare", hostCmp)
+	check("purity/writes-through-params", writesThroughParams(fn("Mutates"), 0, map[*ssa.Function]bool{}) && !writesThroughParams(fn("Reads"), 0, map[*ssa.Function]bool{}))
 	check("append/dead", len(deadAppends(fn("DeadAppend"), func(types.Type) bool { return true })) == 1)
 }
